@@ -57,7 +57,7 @@ BOUND = (
     'generated engine trees with <= 3 packages and <= 4 algorithms: every non-empty subset of {task, analysis, '
     'regress} x with/without events in one package x 3 package styles, events-only packages, five multi-package '
     'dependency shapes (chain, diamond with feedback, shared input, same-kind pair, 2x2 values); every single fault of '
-    '39 kinds at every applicable position of the base engines (quick: three base engines - one of several packages, two one-package engines offering all three kinds -, 425 packages; thorough: all '
+    '40 kinds at every applicable position of the base engines (quick: three base engines - one of several packages, two one-package engines offering all three kinds -, about 430 packages; thorough: all '
     'multi-package, the events-only and nine single-package base engines in all styles, ~2800 packages); CLI exit '
     'status for a sample (5 quick / ~45 thorough)'
 )
@@ -71,7 +71,7 @@ for _c, _ks in {
     'C16.reject.dotted': ('dot_alg_name', 'dot_sv_name', 'dot_v_name'),
     'C16.reject.empty_sv': ('empty_sv',),
     'C16.reject.unpicklable': ('unpicklable_lambda', 'unpicklable_ctor'),
-    'C16.reject.ref_type': ('ref_plain_tuple', 'ref_factory_str', 'ref_impl_class', 'ref_item_str', 'ref_feat_int'),
+    'C16.reject.ref_type': ('ref_plain_tuple', 'ref_factory_str', 'ref_factory_object', 'ref_impl_class', 'ref_item_str', 'ref_feat_int'),
     'C16.reject.ref_resolve': ('ref_missing_feat', 'ref_missing_sv', 'ref_missing_alg', 'ref_wrong_factory'),
     'C16.reject.no_state_vectors': ('no_state_vectors',),
     'C16.reject.moment': G.EVENT_FAULTS,
@@ -225,7 +225,7 @@ def fault_positions(spec):
                     out.append((f, [aid, svn, v]))
         for which in ('inputs', 'feedback'):
             for i, r in enumerate(a.get(which, [])):
-                fs = ['ref_plain_tuple', 'ref_factory_str', 'ref_impl_class', 'ref_missing_alg']
+                fs = ['ref_plain_tuple', 'ref_factory_str', 'ref_factory_object', 'ref_impl_class', 'ref_missing_alg']
                 if n_factories > 1:
                     fs.append('ref_wrong_factory')
                 if r[0] in ('sv', 'v'):
